@@ -853,6 +853,10 @@ func c14Gen(r *vlib.Rand, idx int) *c14Spec {
 		if r.Chance(1, 6) {
 			// an unknown 4-character signature, distinct by construction
 			sig = fmt.Sprintf("%c%c%02d", 'A'+rune(r.Intn(26)), 'A'+rune(r.Intn(26)), i)
+		} else if r.Chance(1, 8) {
+			// a signature whose last byte is fill (blank or NUL, as OEM tables have it) or an unusual character:
+			// still four bytes, still distinct (the table's position is part of it), and the key it is registered under
+			sig = string([]byte{byte('A' + r.Intn(26)), byte('0' + i/10), byte('0' + i%10), []byte{' ', 0, ' ', 0, '_', '$', '~', 'a'}[r.Intn(8)]})
 		}
 		sp.Tables = append(sp.Tables, c14TSpec{Sig: sig, Len: c14Len(r, c14HdrLen), Kind: c14Kind(r), Arg: r.U64()})
 	}
